@@ -367,6 +367,7 @@ Qed.
 (* ------------------------------------------------------------------------------------------ *)
 (** * The generated tables are the IANA registries *)
 From Coq Require Import String.
+Import List.
 
 Definition gen_tables_agree : Prop :=
   Payload_Type_names = iana_payload_types
@@ -399,4 +400,203 @@ Proof.
   - destruct r, v, i; reflexivity.
   - destruct r, v, i; reflexivity.
   - destruct r, v, i; reflexivity.
+Qed.
+
+(* ------------------------------------------------------------------------------------------ *)
+(** * Payload bodies *)
+
+Lemma sa_layout ps : Forall wf_proposal ps -> body_to_bytes (B_SA ps) = ret (rfc_proposals ps).
+Proof.
+  intros H. cbn [body_to_bytes]. rewrite proposals_to_bytes_ok by exact H.
+  rewrite enc_proposals_rfc by reflexivity. reflexivity.
+Qed.
+
+Lemma sa_roundtrip ps : ps <> [] -> Forall wf_proposal ps -> fst (parse_sa (rfc_proposals ps)) = Ok (B_SA ps).
+Proof.
+  intros Hne H. unfold parse_sa. rewrite <- (enc_proposals_rfc ps 0 (length ps)) by reflexivity.
+  rewrite fst_bind.
+  pose proof (proposals_loop_enc ps (S (length (enc_proposals ps 0 (length ps)))) [] 0 (length ps) H) as Hl.
+  cbn [app length] in Hl. rewrite Hl by (pose proof (enc_proposals_length_ge ps 0 (length ps)); lia).
+  unfold new_sa. destruct ps; [congruence | reflexivity].
+Qed.
+
+(** the bodies whose parser has no loop of its own *)
+Lemma simple_hdr_eq t : (t < 256)%N ->
+  pack_bytes fmt_PayloadID_to_bytes_0 [VN t; VN 0%N; VN 0%N] = pack_bytes fmt_PayloadID_parse_0 [VN t; VB [0; 0; 0]%N].
+Proof. reflexivity. Qed.
+
+Definition simple_body (b : pbody) : Prop :=
+  match b with B_DELETE _ _ | B_TS _ _ => False | _ => True end.
+
+Lemma body_layout_simple b : simple_body b -> wf_body b -> body_to_bytes b = ret (rfc_body b).
+Proof.
+  destruct b as [ps|g d|i t d|m d|n|p t spi d|p spis|v|i sels|c n]; cbn [simple_body wf_body rfc_body]; intros Hs Hwf;
+    try contradiction.
+  - apply sa_layout. tauto.
+  - cbn [body_to_bytes]. rewrite pack_fits by (unfold fmt_PayloadKE_to_bytes_0; fits_tac). rewrite bind_ret_l. reflexivity.
+  - cbn [body_to_bytes]. rewrite pack_fits by (unfold fmt_PayloadID_to_bytes_0; fits_tac). rewrite bind_ret_l. reflexivity.
+  - cbn [body_to_bytes]. rewrite pack_fits by (unfold fmt_PayloadAUTH_to_bytes_0; fits_tac). rewrite bind_ret_l. reflexivity.
+  - reflexivity.
+  - cbn [body_to_bytes]. destruct Hwf as (? & ? & ?). unfold len_of in *.
+    rewrite pack_fits by (unfold fmt_PayloadNOTIFY_to_bytes_0; fits_tac). rewrite bind_ret_l. reflexivity.
+  - reflexivity.
+  - reflexivity.
+Qed.
+
+Lemma body_roundtrip_simple b : simple_body b -> wf_body b ->
+  fst (parse_body (body_class b) (rfc_body b)) = Ok (set_next b 0).
+Proof.
+  destruct b as [ps|g d|i t d|m d|n|p t spi d|p spis|v|i sels|c n]; cbn [simple_body wf_body rfc_body body_class set_next];
+    intros Hs Hwf; try contradiction.
+  - cbn [parse_body]. apply sa_roundtrip; tauto.
+  - cbn [parse_body]. unfold parse_ke.
+    change (u16 g ++ u16 0 ++ d) with (pack_bytes fmt_PayloadKE_parse_0 [VN g; VN 0%N] ++ d).
+    rewrite bind_unpack_at0 by (unfold fmt_PayloadKE_parse_0; fits_tac). reflexivity.
+  - assert (E : forall ini, fst (parse_id ini (u8 t ++ [0; 0; 0]%N ++ d)) = Ok (B_ID ini t d)).
+    { intros ini. unfold parse_id.
+      change (u8 t ++ [0; 0; 0]%N ++ d) with (pack_bytes fmt_PayloadID_parse_0 [VN t; VB [0; 0; 0]%N] ++ d).
+      rewrite bind_unpack_at0 by (unfold fmt_PayloadID_parse_0; fits_tac). reflexivity. }
+    destruct i; cbn [parse_body]; apply E.
+  - cbn [parse_body]. unfold parse_auth.
+    change (u8 m ++ [0; 0; 0]%N ++ d) with (pack_bytes fmt_PayloadAUTH_parse_0 [VN m; VB [0; 0; 0]%N] ++ d).
+    rewrite bind_unpack_at0 by (unfold fmt_PayloadAUTH_parse_0; fits_tac). reflexivity.
+  - cbn [parse_body]. unfold new_nonce, nonce_length_bad.
+    replace (_ || _) with false; [reflexivity|]. symmetry. apply orb_false_iff. split; apply N.ltb_ge; lia.
+  - cbn [parse_body]. destruct Hwf as (Hp & Ht & Hspi). unfold len_of in *. unfold parse_notify.
+    change (u8 p ++ u8 (N.of_nat (length spi)) ++ u16 t ++ spi ++ d)
+      with (pack_bytes fmt_PayloadNOTIFY_parse_0 [VN p; VN (N.of_nat (length spi)); VN t] ++ spi ++ d).
+    rewrite bind_unpack_at0 by (unfold fmt_PayloadNOTIFY_parse_0; fits_tac).
+    cbn [ret fst]. rewrite Nat2N.id. f_equal. f_equal.
+    + destruct spi as [|b spi']; [reflexivity|].
+      replace (0 <? N.of_nat (length (b :: spi')))%N with true by (symmetry; apply N.ltb_lt; cbn [length]; lia).
+      set (h := pack_bytes _ _). change 4%nat with (length h). unfold slice.
+      replace (length h + length (b :: spi') - length h)%nat with (length (b :: spi')) by lia.
+      rewrite skipn_app_exact, firstn_app_exact. reflexivity.
+    + set (h := pack_bytes _ _). change 4%nat with (length h). unfold slice_from.
+      rewrite <- app_length, app_assoc, skipn_app_exact. reflexivity.
+  - cbn [parse_body]. unfold new_vendor. destruct v; [congruence | reflexivity].
+  - reflexivity.
+Qed.
+
+(* ------------------------------------------------------------------------------------------ *)
+(** * The generic payload chain *)
+
+Definition body_ok (b : pbody) : Prop :=
+  body_to_bytes b = ret (rfc_body b) /\ fst (parse_body (body_class b) (rfc_body b)) = Ok (set_next b 0).
+
+Lemma pl_type_rfc p : pl_type p = rfc_payload_type (pl_body p).
+Proof. unfold pl_type. destruct (pl_body p) as [| | i ? ?| | | | | | i ?|]; try destruct i; reflexivity. Qed.
+
+Lemma rfc_payload_type_lt b : (rfc_payload_type b < 256)%N.
+Proof. destruct b as [| | i ? ?| | | | | | i ?|]; try destruct i; cbn; lia. Qed.
+
+Lemma rfc_payload_type_nz b : N.eqb (rfc_payload_type b) Payload_Type_NONE = false.
+Proof. destruct b as [| | i ? ?| | | | | | i ?|]; try destruct i; reflexivity. Qed.
+
+Definition chain_next (p : payload) (rest : list payload) : N :=
+  match rest with
+  | q :: _ => rfc_payload_type (pl_body q)
+  | [] => match pl_body p with B_SK _ n => n | _ => 0%N end
+  end.
+
+Lemma chain_next_ok p rest : wf_body (pl_body p) ->
+  match rest with
+  | q :: _ => ret (pl_type q)
+  | [] => if N.eqb (pl_type p) Payload_Type_SK then sk_next p else ret Payload_Type_NONE
+  end = ret (chain_next p rest) /\ (chain_next p rest < 256)%N.
+Proof.
+  intros Hwf. unfold chain_next. destruct rest as [|q rest'].
+  - unfold sk_next. rewrite pl_type_rfc.
+    destruct (pl_body p) as [| | i ? ?| | | | | | i ?|c n]; try destruct i; cbn; split; try reflexivity; try lia.
+    cbn in Hwf. exact Hwf.
+  - rewrite pl_type_rfc. split; [reflexivity | apply rfc_payload_type_lt].
+Qed.
+
+Lemma chain_hdr_fits p rest : wf_body (pl_body p) -> (4 + len_of (rfc_body (pl_body p)) < 65536)%N ->
+  fits fmt_Message_payloads_to_bytes_0
+    [VN (chain_next p rest); VN payload_critical_byte; VN (payload_length_field (N.of_nat (length (rfc_body (pl_body p)))))].
+Proof.
+  intros Hwf Hlen. destruct (chain_next_ok p rest Hwf) as [_ Hn].
+  unfold fmt_Message_payloads_to_bytes_0, payload_critical_byte, payload_length_field, len_of in *. fits_tac.
+Qed.
+
+Lemma rfc_chain_unfold p rest :
+  rfc_chain (p :: rest) =
+  pack_bytes fmt_Message_payloads_to_bytes_0
+    [VN (chain_next p rest); VN payload_critical_byte; VN (payload_length_field (N.of_nat (length (rfc_body (pl_body p)))))]
+  ++ rfc_body (pl_body p) ++ rfc_chain rest.
+Proof.
+  cbn [rfc_chain pack_bytes fmt_Message_payloads_to_bytes_0].
+  unfold payload_critical_byte, payload_length_field, len_of, chain_next. rewrite (N.add_comm (N.of_nat _) 4).
+  rewrite <- !app_assoc. reflexivity.
+Qed.
+
+Lemma chain_layout ps : wf_chain ps -> Forall (fun p => body_ok (pl_body p)) ps ->
+  payloads_to_bytes ps = ret (rfc_chain ps).
+Proof.
+  induction ps as [|p rest IH]; intros Hwf Hok; [reflexivity|].
+  destruct Hwf as (Hc & Hb & Hlen & Hsk & Hrest). inversion Hok as [|? ? [Henc _] Hokr]; subst.
+  rewrite rfc_chain_unfold. cbn [payloads_to_bytes]. rewrite Henc, bind_ret_l.
+  destruct (chain_next_ok p rest Hb) as [Hn _]. rewrite Hn, bind_ret_l.
+  rewrite pack_fits by (apply chain_hdr_fits; assumption). rewrite bind_ret_l.
+  rewrite (IH Hrest Hokr), bind_ret_l. reflexivity.
+Qed.
+
+Lemma rfc_chain_length_ge ps : (length ps <= length (rfc_chain ps))%nat.
+Proof.
+  induction ps as [|p rest IH]; [cbn; lia|]. rewrite rfc_chain_unfold, !app_length.
+  cbn [pack_bytes fmt_Message_payloads_to_bytes_0 length app be_encode]. cbn [length]. lia.
+Qed.
+
+Lemma critical_of_zero : payload_critical_of payload_critical_byte = false.
+Proof. reflexivity. Qed.
+
+Lemma payloads_loop_rfc ps : forall fuel pre,
+  wf_chain ps -> Forall (fun p => body_ok (pl_body p)) ps -> (length ps < fuel)%nat ->
+  fst (payloads_loop fuel (pre ++ rfc_chain ps) (length pre) (rfc_first ps)) = Ok ps.
+Proof.
+  induction ps as [|p rest IH]; intros fuel pre Hwf Hok Hfuel.
+  - destruct fuel; [lia|]. cbn [payloads_loop rfc_first rfc_chain]. rewrite app_nil_r.
+    cbn [N.eqb Payload_Type_NONE negb]. rewrite Nat.eqb_refl. reflexivity.
+  - destruct Hwf as (Hc & Hb & Hlen & Hsk & Hrest). inversion Hok as [|? ? [_ Hdec] Hokr]; subst.
+    destruct fuel as [|f]; [lia|].
+    cbn [payloads_loop rfc_first]. rewrite rfc_payload_type_nz. cbn [negb].
+    rewrite rfc_chain_unfold.
+    set (h := pack_bytes fmt_Message_payloads_to_bytes_0 _).
+    pose proof (chain_hdr_fits p rest Hb Hlen) as Hh. fold h in Hh.
+    assert (Hhl : length h = 4%nat) by (unfold h; rewrite pack_bytes_length by exact Hh; reflexivity).
+    set (bd := rfc_body (pl_body p)) in *. set (tail := rfc_chain rest).
+    rewrite fst_bind. cbn [tick fst].
+    change fmt_Message_parse_payloads_0 with fmt_Message_payloads_to_bytes_0.
+    unfold h at 1. rewrite bind_unpack_at by exact Hh. fold h.
+    rewrite critical_of_zero. unfold payload_length_field, payload_length_bad.
+    replace (N.of_nat (length bd) + 4 <? 4)%N with false by (symmetry; apply N.ltb_ge; lia).
+    rewrite (sub_slice pre h bd tail) by (try exact Hhl; lia).
+    unfold parse_one.
+    assert (Hlk : lookup (rfc_payload_type (pl_body p)) type_2_payload = Some (body_class (pl_body p))).
+    { destruct (pl_body p) as [| | i ? ?| | | | | | i ?|]; try destruct i; reflexivity. }
+    rewrite Hlk. unfold bd at 1 2 3. rewrite Hdec.
+    rewrite fst_bind, Hdec, fst_bind.
+    replace (length pre + N.to_nat (N.of_nat (length bd) + 4))%nat with (length (pre ++ h ++ bd))
+      by (rewrite !app_length; lia).
+    replace (pre ++ h ++ bd ++ tail) with ((pre ++ h ++ bd) ++ tail) by (rewrite <- !app_assoc; reflexivity).
+    assert (Hp : mkPayload false
+                   (if N.eqb (rfc_payload_type (pl_body p)) Payload_Type_SK
+                    then set_next (set_next (pl_body p) 0) (chain_next p rest) else set_next (pl_body p) 0) = p).
+    { destruct p as [crit body]. cbn [pl_critical pl_body] in *. subst crit. f_equal.
+      destruct body as [| | i ? ?| | | | | | i ?|c n]; try destruct i; try reflexivity.
+      cbn [rfc_payload_type N.eqb Payload_Type_SK set_next]. unfold chain_next. cbn [pl_body].
+      rewrite (Hsk eq_refl). reflexivity. }
+    destruct (N.eqb (rfc_payload_type (pl_body p)) Payload_Type_SK) eqn:Esk.
+    + (* an Encrypted payload ends the chain *)
+      assert (Hr : rest = []).
+      { apply Hsk. unfold is_sk. destruct (pl_body p) as [| | i ? ?| | | | | | i ?|]; try destruct i; try discriminate; reflexivity. }
+      subst rest. unfold tail. cbn [rfc_chain]. rewrite app_nil_r.
+      destruct f as [|f']; [cbn in Hfuel; lia|]. cbn [payloads_loop N.eqb Payload_Type_NONE negb].
+      rewrite Nat.eqb_refl. cbn [negb ret fst]. rewrite Hp. reflexivity.
+    + replace (chain_next p rest) with (rfc_first rest).
+      * unfold tail. rewrite (IH f (pre ++ h ++ bd) Hrest Hokr) by (cbn in Hfuel; lia).
+        cbn [ret fst]. rewrite Hp. reflexivity.
+      * unfold chain_next, rfc_first. destruct rest; [| reflexivity].
+        destruct (pl_body p) as [| | i ? ?| | | | | | i ?|]; try destruct i; try reflexivity; discriminate.
 Qed.
